@@ -78,3 +78,5 @@ func zzC20aTicker() {
 	}
 	vf.Reach("end")
 }
+
+func zzDur(label string) time.Duration { return time.Duration(vf.I64(label)) }
